@@ -102,6 +102,12 @@ Theorem C17_model_listing_admitted : forall N C, N >= 1 -> forall root s,
   reach N C root s -> cons s = CEos -> admits root true (recvd s) = true.
 Proof. exact model_listing_admitted. Qed.
 
+(* ... and also every failed listing: the tree has an error and what was received before the failure
+   is a parents-first part of the reference walk (never something that is not an included entry). *)
+Theorem C17_model_failed_listing_admitted : forall N C, N >= 1 -> forall root s,
+  reach N C root s -> cons s = CErr \/ cons s = CDropped -> admits root false (recvd s) = true.
+Proof. exact model_failed_listing_admitted. Qed.
+
 (* A concrete tree (excluded folder with content, link, nested folder), its reference walk, and what
    the judge [admits] says about a good and a bad listing. *)
 Example C17_example :
@@ -122,3 +128,5 @@ Print Assumptions C17_end_of_stream.
 Print Assumptions C17_error_surfaces.
 Print Assumptions C17_admits_spec.
 Print Assumptions C17_model_listing_admitted.
+Print Assumptions C17_model_failed_listing_admitted.
+Print Assumptions C17_no_descent_unique.
